@@ -679,7 +679,7 @@ def gen_det_join_spec(rng: random.Random, *, delays: bool = False) -> dict:
     worker step (1..3 workers, optional retries) that marks the store and forwards them; the single-worker join step accepts the
     forwarded type only, normalises every input into a derived event of ANOTHER type (one type, or Left/Right chosen by the part's
     k) and hands that to ctx.collect_events -- so its buffer holds events of types the step itself does not accept (some specs
-    mix in the accepted type: even parts are collected as they came).  Named or default buffer.  Result = the sorted uids of the
+    mix in the accepted type: even parts become a derived event of the accepted type).  Named or default buffer.  Result = the sorted uids of the
     collected events (derived from the parents' uids: independent of the schedule)."""
     k = rng.randint(2, 4)
     nfail = rng.choice([0, 0, 1, 2])
@@ -704,7 +704,7 @@ def gen_det_join_spec(rng: random.Random, *, delays: bool = False) -> dict:
     elif shape == "sides":
         tys = rng.sample([7, 8, 9], 2)
     else:
-        tys = [6, rng.choice([7, 8])]  # even parts as they came (the accepted type), odd parts normalised
+        tys = [6, rng.choice([7, 8])]  # even parts: a derived event of the accepted type, odd parts: another type
     expected = [tys[i % len(tys)] for i in range(k)]
     buf = rng.choice([None, None, "b01"])
     coll = {"name": "s04", "accepts": [6], "nw": 1, "retry": None,
